@@ -156,8 +156,11 @@ def run_shard(shard):
     rnd = random.Random(f"{shard['seed']}:{shard['kind']}:{shard.get('idx', 0)}")
     kind = shard["kind"]
     if kind == "product":
-        for num, fol in itertools.product(gen_py.NUMBERS, NUM_FOLLOW):
+        hand = [n for n in gen_py.NUMBERS if n not in set(gen_py.NUMBERS_PRODUCT)]
+        for num, fol in itertools.product(hand, NUM_FOLLOW):
             check_case(acc, "x = " + num + fol, "number")
+        for num, fol in itertools.product(gen_py.NUMBERS_PRODUCT, ["", " ", ".real", " if a else b", "+1", ")", "\n", "j", "_", "e", "x"]):
+            check_case(acc, "x = " + num + fol, "number-product")
         for a, b in itertools.product(OPS, OPS):
             check_case(acc, "a" + a + b + "b", "oppair")
             check_case(acc, "a " + a + b + " 1\n", "oppair")
